@@ -222,6 +222,9 @@ func (f *clientioFam) op(a []string) string {
 		ctx := *(*gorums.ServerCtx)(unsafe.Pointer(&m))
 		go func() {
 			_, err := f.srv.ExecCommand(ctx, cmd)
+			// a handler that returns WITHOUT releasing the server lock (gorums releases it itself after the handler):
+			// release it here, or the line below would wait for ever
+			m.once.Do(m.mut.Unlock)
 			f.results <- cioResult{k, err}
 		}()
 		mu.Lock() // ExecCommand releases the server lock once the waiter is in place
